@@ -33,6 +33,16 @@ def sizeVerdict (L : Nat) (declared : Nat) : SizeVerdict :=
   let size : Int := (declared : Int) - 4
   if size > (L : Int) ∨ size < 0 then .exceeded size else .ok size.toNat
 
+/-- the part of `ReadTypedMsg` (+ `Slurp` when oversized) after the 5-byte header: `declared`
+    is the header's length field, `r` the stream behind the header -/
+def readBody (L : Nat) (t : UInt8) (declared : Nat) (r : Bytes) : Option (Item × Bytes) :=
+  match sizeVerdict L declared with
+  | .ok n => if r.length < n then none else some (.msg t (r.take n), r.drop n)
+  | .exceeded size =>
+    if size < 0 then some (.big t size true, r)
+    else if r.length < size.toNat then some (.big t size false, [])
+    else some (.big t size true, r.drop size.toNat)
+
 /-- One `ReadTypedMsg` (+ `Slurp` when oversized) on a flat stream.
     `none`: the stream ends before the message (or its skipped body) is complete. -/
 def readItem (L : Nat) (inp : Bytes) : Option (Item × Bytes) :=
@@ -41,13 +51,7 @@ def readItem (L : Nat) (inp : Bytes) : Option (Item × Bytes) :=
   | t :: r =>
     match rd32 r with
     | none => none
-    | some (declared, r') =>
-      match sizeVerdict L declared with
-      | .ok n => if r'.length < n then none else some (.msg t (r'.take n), r'.drop n)
-      | .exceeded size =>
-        if size < 0 then some (.big t size true, r')
-        else if r'.length < size.toNat then some (.big t size false, [])
-        else some (.big t size true, r'.drop size.toNat)
+    | some (declared, r') => readBody L t declared r'
 
 /-- every item consumes at least the 5 header bytes, so `inp.length` is enough fuel -/
 def deframeAux (L : Nat) : Nat → Bytes → List Item
